@@ -378,3 +378,127 @@ Definition run13 (cs : list (bool * caseConv)) : string :=
                  (fst ic, agree_conv (snd (snd ic)),
                   if fst (snd ic) then holds13 (snd (snd ic)) else true))
               (combine (map N.of_nat (seq 0 (List.length cs))) cs)).
+
+(** ** C14 as a predicate on observations: the map's outcome against the element type's own
+    outcome on every item (both from the implementation). *)
+Definition leaf2 := (string * option string)%type.   (* body, joined location path *)
+
+Definition leaf2_leb (a b : leaf2) : bool :=
+  let key x := (fst x ++ "@" ++ match snd x with Some l => l | None => "" end)%string in
+  match String.compare (key a) (key b) with Gt => false | _ => true end.
+
+Fixpoint insert_leaf (x : leaf2) (l : list leaf2) : list leaf2 :=
+  match l with
+  | [] => [x]
+  | y :: r => if leaf2_leb x y then x :: l else y :: insert_leaf x r
+  end.
+Definition sort_leaves (l : list leaf2) : list leaf2 := fold_right insert_leaf [] l.
+
+Definition leaf2_eqb (a b : leaf2) : bool := str_eqb (fst a) (fst b) && option_eqb str_eqb (snd a) (snd b).
+
+Definition obs_leaves2 (pre : option string) (o : obs) : list leaf2 :=
+  map (fun l => (fst (fst l), snd (fst l))) (obs_leaves pre None o).
+
+Definition key_str (K : keykind) (p : path) : option (string * string) :=
+  match key_of K p with Ok kd => Some kd | _ => None end.
+
+(** expected leaves and entries, item by item, from the observed element outcomes *)
+Fixpoint expect14 (K : keykind) (seen : list string) (items : list nested) (inner : list conv_obs)
+  : list leaf2 * list (string * value) :=
+  match items, inner with
+  | it :: r, io :: ir =>
+      match meta_path it with
+      | None =>
+          let '(ls, es) := expect14 K seen r ir in
+          (("Unexpected meta-item format `expression`", None) :: ls, es)
+      | Some p =>
+          let vleaves := match io with CErr o => obs_leaves2 (Some (path_to_string p)) o | _ => [] end in
+          match key_str K p with
+          | None =>
+              let '(ls, es) := expect14 K seen r ir in
+              ((("Key must be an identifier", None) :: vleaves) ++ ls, es)%list
+          | Some (k, d) =>
+              let '(ls, es) := expect14 K (k :: seen) r ir in
+              let dup := if mem k seen then [(("Duplicate field `" ++ d ++ "`")%string, None)] else [] in
+              let ent := match io with COk v => if mem k seen then [] else [(k, v)] | _ => [] end in
+              ((dup ++ vleaves) ++ ls, ent ++ es)%list
+          end
+      end
+  | _, _ => ([], [])
+  end.
+
+Record caseMap : Type := {
+  m_case : caseConv;
+  m_key : keykind;
+  m_inner : list conv_obs;          (* the element type on each item (placeholder for literals) *)
+  m_twin : option conv_obs;         (* the hash / ordered twin on the same list *)
+}.
+
+Definition holds14 (c : caseMap) : bool :=
+  match k_input (m_case c) with
+  | NList _ _ _ items =>
+      (if Nat.eqb (List.length items) (List.length (m_inner c)) then true else false)
+      && (let '(ls, es) := expect14 (m_key c) [] items (m_inner c) in
+          match ls, k_obs (m_case c) with
+          | [], COk (VMap kvs) =>
+              value_eqb (VMap kvs) (VMap es) && Nat.eqb (List.length kvs) (List.length items)
+          | _ :: _, CErr o =>
+              list_eqb leaf2_eqb (sort_leaves (obs_leaves2 None o)) (sort_leaves ls)
+          | _, _ => false
+          end)
+      && match m_twin c with Some t => conv_obs_eqb t (k_obs (m_case c)) | None => true end
+  | _ => true
+  end.
+
+Definition run14 (cs : list caseMap) : string :=
+  report (map (fun ic : N * caseMap => (fst ic, agree_conv (m_case (snd ic)), holds14 (snd ic)))
+              (combine (map N.of_nat (seq 0 (List.length cs))) cs)).
+
+(** ** C15 (B) on observations of a probe implementer: which hook answered is determined by the
+    item's form and the set of overridden hooks; errors come back spanned, an already-spanned
+    error unchanged. *)
+Definition probe_span_eqb (s : option span) : bool := ospan_eqb s (Some probe_span).
+
+(** The hook an item reaches, given which hooks exist: the first overridden one on the
+    dispatch chain, or the default rejection ([None]). *)
+Definition reached (F : fm) (n : nested) : option string :=
+  let lit_chain (l : lit) :=
+    match o_value F with
+    | Some _ => Some "value"
+    | None =>
+        match l with
+        | LBool _ => match o_bool F with Some _ => Some "bool" | None => None end
+        | LStr _ => match o_string F with Some _ => Some "string" | None => None end
+        | LChar _ => match o_char F with Some _ => Some "char" | None => None end
+        | _ => None
+        end
+    end in
+  match n with
+  | NLit _ l => lit_chain l
+  | NPath _ _ => match o_word F with Some _ => Some "word" | None => None end
+  | NList _ _ _ _ => match o_list F with Some _ => Some "list" | None => None end
+  | NBadList _ _ _ _ _ => None
+  | NNameValue _ _ e =>
+      match o_expr F with
+      | Some _ => Some "expr"
+      | None => match strip_groups e with ELit _ l => lit_chain l | _ => None end
+      end
+  end.
+
+Definition starts_with (pre s : string) : bool := String.prefix pre s.
+
+Definition holds15 (c : caseConv) : bool :=
+  match k_target c, k_entry c with
+  | TProbe F, (EMeta | ENested) =>
+      let inside o := leaf_spans_inside (i_span (ninfo (k_input c))) o in
+      match reached F (k_input c), k_obs c with
+      | Some h, COk (VStr s) => starts_with (h ++ ":") s
+      | Some h, CErr (Obs 1 _ body None sp []) =>
+          (* the hook's own error: unspanned ones get a span inside the item, spanned ones keep theirs *)
+          str_eqb body ("hook " ++ h)
+          && (probe_span_eqb sp || inside (Obs 1 body body None sp []))
+      | None, CErr o => inside o            (* default rejection, spanned inside the item *)
+      | _, _ => false
+      end
+  | _, _ => true
+  end.
